@@ -811,7 +811,14 @@ def _same_as_fresh(ctx, X, G, R, case, res, A, tag):
     ctx.check(H.sq(ref.den(M) - ref.den(resf[0])) <= 1e-18 * S, tag + "-same-model-as-on-independent-objects",
               f"||M - M_fresh||^2 = {H.sq(ref.den(M) - ref.den(resf[0]))!r}, S = {S!r}")
     fa, fb = res[2].get("fit"), resf[2].get("fit") if isinstance(resf[2], dict) else None
-    ctx.check(H.is_float(fa) and H.is_float(fb) and abs(float(fa) - float(fb)) <= 1e-9 * (1 + abs(float(fa))),
+    # fit = 1 - sqrt(|normX^2 + normM^2 - 2<X,M>|) / normX: the quantity under the root carries a relative rounding
+    # error d' ~ 1e-13 of normX^2 that depends on the summation order (C- vs F-ordered buffers of the same data), so
+    # with u = 1 - fit the fit itself moves by min(sqrt(2 d'), d' / u): 4e-7 for an almost exact fit, 1e-10 at u = 1e-3
+    fit_tol = 1e-9
+    if H.is_float(fa) and H.is_float(fb):
+        u = max(1.0 - float(fa), 1.0 - float(fb), 1e-300)
+        fit_tol = 1e-9 * (1 + abs(float(fa))) + min(float(np.sqrt(2e-13)), 1e-13 / u)
+    ctx.check(H.is_float(fa) and H.is_float(fb) and abs(float(fa) - float(fb)) <= fit_tol,
               tag + "-same-fit-as-on-independent-objects", (fa, fb))
     ctx.check(res[2].get("iters") == resf[2].get("iters"), tag + "-same-iteration-count-as-on-independent-objects",
               (res[2].get("iters"), resf[2].get("iters")))
